@@ -52,6 +52,10 @@ pub struct DefaultInfo<T> {
     pub(crate) prev_gap_rel: T,
     /// κ/τ from previous iteration
     pub(crate) prev_ktratio: T,
+    /// primal infeasibility residual from previous iteration
+    pub(crate) prev_res_primal_inf: T,
+    /// dual infeasibility residual from previous iteration
+    pub(crate) prev_res_dual_inf: T,
     /// solve time
     pub solve_time: f64,
     /// solver status
@@ -238,6 +242,8 @@ where
         self.prev_gap_abs = self.gap_abs;
         self.prev_gap_rel = self.gap_rel;
         self.prev_ktratio = self.ktratio;
+        self.prev_res_primal_inf = self.res_primal_inf;
+        self.prev_res_dual_inf = self.res_dual_inf;
 
         prev_variables.copy_from(variables);
     }
@@ -250,6 +256,8 @@ where
         self.gap_abs = self.prev_gap_abs;
         self.gap_rel = self.prev_gap_rel;
         self.ktratio = self.prev_ktratio;
+        self.res_primal_inf = self.prev_res_primal_inf;
+        self.res_dual_inf = self.prev_res_dual_inf;
 
         variables.copy_from(prev_variables);
     }
